@@ -400,7 +400,10 @@ def filter_mc_sharemem(filename, step_size, box_size, cores, shape,
             method = 'fork'
         ctx = multiprocessing.get_context(method)
         barrier = ctx.Barrier(parties=len(ymaxs))
-        pool = ctx.Pool(processes=cores, maxtasksperchild=1,
+        # every stripe has to be running to get past the barrier, so there
+        # must be one worker per stripe (the realised number of stripes can
+        # also exceed the number that was asked for)
+        pool = ctx.Pool(processes=len(args), maxtasksperchild=1,
                         initializer=init, initargs=(barrier, memory_id))
         try:
             # chunksize=1 ensures that we only send a single task to each
